@@ -1,7 +1,531 @@
-//! drivers for this area (see lib/README_FRAMEWORK.md)
-use crate::util::Args;
+//! C17: the open-addressing table `linear_hashtbl::raw::RawTable` behaves as a set.
+//!
+//! * `hashtbl-replay` (binding T): steps a real `RawTable<(u32, u32), S>` through behaviours of
+//!   the implementation-shaped model `spec/HashTblImpl.tla` printed by TLC (`--behaviours
+//!   <ndjson>`: `{"cfg", "hash": [H(1), H(2), ..], "tabs", "ops": [[op, t, u, k, v, [p..], n, sit], ..]}`),
+//!   passing the model's hash values to the API, and audits every table after every mutating call.
+//! * `hashtbl-random` (binding V): long seeded random call sequences over <= 20 keys with
+//!   adversarial hash functions.
+//!
+//! The drivers only call and log; `spec/TraceHashTbl.tla` decides.  Every call on a table runs
+//! in a worker thread under a watchdog: a call that does not return is logged as
+//! `"fail":"hang"`, a panic as `"fail":{"panic":msg}`; both end the history.
+//!
+//! Events (`ev` = operation): reset, new, insert, find, get, remove, retain, drain, drain_partial,
+//! into_iter, iter, len, clear, reserve, clone, audit.  `slots` is informational only.
 
-pub fn run(driver: &str, _args: &Args) {
-    eprintln!("driver {driver} not implemented yet");
-    std::process::exit(2);
+use std::io::BufRead;
+use std::sync::mpsc::{channel, Receiver, RecvTimeoutError, Sender};
+use std::time::Duration;
+
+use linear_hashtbl::raw::{RawTable, Status};
+
+use crate::util::{catch, json, write_summary, Args, Rng, TraceOut, Value};
+
+type Elem = (u32, u32);
+const MAXTAB: usize = 3;
+
+fn ej(e: &Elem) -> Value {
+    json!([e.0, e.1])
+}
+fn opt(e: Option<&Elem>) -> Value {
+    match e {
+        Some(e) => json!([ej(e)]),
+        None => json!([]),
+    }
+}
+fn u(v: &Value, f: &str) -> u64 {
+    v.get(f).and_then(|x| x.as_u64()).unwrap_or_else(|| panic!("harness: field {f} missing in {v}"))
+}
+/// hashes are logged as strings (64-bit values do not fit TLC's integers; the spec ignores them)
+fn h_of(v: &Value) -> u64 {
+    v["h"].as_str().expect("harness: h").parse().expect("harness: h")
+}
+
+/// perform the call described by `c` on the tables and add the observed results to it
+fn exec<S: Status>(tabs: &mut Vec<RawTable<Elem, S>>, c: &mut Value) {
+    let ev = c["ev"].as_str().expect("harness: ev").to_string();
+    let t = u(c, "t") as usize;
+    assert!(t >= 1 && t <= MAXTAB, "harness: table id");
+    match ev.as_str() {
+        "new" => {
+            let cap = u(c, "cap") as usize;
+            tabs[t] = if cap == 0 { RawTable::new() } else { RawTable::with_capacity(cap) };
+        }
+        "insert" => {
+            let (k, v, h) = (u(c, "k") as u32, u(c, "v") as u32, h_of(c));
+            let tab = &mut tabs[t];
+            match tab.find_or_find_insert_slot(h, |e| e.0 == k) {
+                Ok(i) => {
+                    // SAFETY: `i` was returned in the `Ok` case, no modification since
+                    let e = *unsafe { tab.get_at_slot_unchecked(i) };
+                    c["res"] = json!("found");
+                    c["out"] = json!([ej(&e)]);
+                }
+                Err(i) => {
+                    // SAFETY: `i` was returned in the `Err` case, no modification since
+                    unsafe { tab.insert_in_slot_unchecked(h, i, (k, v)) };
+                    c["res"] = json!("inserted");
+                    c["out"] = json!([]);
+                }
+            }
+        }
+        "find" => {
+            let (k, h) = (u(c, "k") as u32, h_of(c));
+            let tab = &tabs[t];
+            match tab.find(h, |e| e.0 == k) {
+                Some(i) => {
+                    c["found"] = json!(true);
+                    // SAFETY: `i` was returned by find, no modification since
+                    c["out"] = json!([ej(unsafe { tab.get_at_slot_unchecked(i) })]);
+                }
+                None => {
+                    c["found"] = json!(false);
+                    c["out"] = json!([]);
+                }
+            }
+        }
+        "get" => {
+            let (k, h) = (u(c, "k") as u32, h_of(c));
+            c["out"] = opt(tabs[t].get(h, |e| e.0 == k));
+        }
+        "remove" => {
+            let (k, h) = (u(c, "k") as u32, h_of(c));
+            let r = tabs[t].remove_entry(h, |e| e.0 == k);
+            c["out"] = opt(r.as_ref());
+        }
+        "retain" => {
+            let keep: Vec<u32> = c["p"].as_array().expect("harness: p").iter().map(|x| x.as_u64().unwrap() as u32).collect();
+            let mut seen = Vec::new();
+            let mut dropped = Vec::new();
+            tabs[t].retain(
+                |e| {
+                    seen.push(ej(e));
+                    keep.contains(&e.0)
+                },
+                |e| dropped.push(ej(&e)),
+            );
+            c["seen"] = json!(seen);
+            c["out"] = json!(dropped);
+        }
+        "drain" => {
+            let it = tabs[t].drain();
+            c["ilen"] = json!(it.len());
+            let out: Vec<Value> = it.map(|e| ej(&e)).collect();
+            c["out"] = json!(out);
+        }
+        "drain_partial" => {
+            let take = u(c, "take") as usize;
+            let mut it = tabs[t].drain();
+            c["ilen"] = json!(it.len());
+            let mut out = Vec::new();
+            for _ in 0..take {
+                match it.next() {
+                    Some(e) => out.push(ej(&e)),
+                    None => break,
+                }
+            }
+            c["rest"] = json!(it.len());
+            drop(it);
+            c["out"] = json!(out);
+        }
+        "into_iter" => {
+            let tab = std::mem::replace(&mut tabs[t], RawTable::new());
+            let it = tab.into_iter();
+            c["ilen"] = json!(it.len());
+            let out: Vec<Value> = it.map(|e| ej(&e)).collect();
+            c["out"] = json!(out);
+        }
+        "iter" => {
+            let it = tabs[t].iter();
+            c["ilen"] = json!(it.len());
+            let out: Vec<Value> = it.map(ej).collect();
+            c["out"] = json!(out);
+        }
+        "len" => {
+            c["empty"] = json!(tabs[t].is_empty());
+        }
+        "clear" => tabs[t].clear(),
+        "reserve" => tabs[t].reserve(u(c, "n") as usize),
+        "clone" => {
+            let dst = u(c, "u") as usize;
+            assert!(dst >= 1 && dst <= MAXTAB && dst != t, "harness: clone target");
+            let cl = tabs[t].clone();
+            tabs[dst] = cl;
+            c["ulen"] = json!(tabs[dst].len());
+        }
+        "audit" => {
+            let keys: Vec<(u32, u64)> = c["keys"]
+                .as_array()
+                .expect("harness: keys")
+                .iter()
+                .map(|x| (x[0].as_u64().unwrap() as u32, x[1].as_str().unwrap().parse().unwrap()))
+                .collect();
+            let tab = &tabs[t];
+            let gets: Vec<Value> = keys.iter().map(|&(k, h)| json!([k, opt(tab.get(h, |e| e.0 == k))])).collect();
+            c["gets"] = json!(gets);
+            let it = tab.iter();
+            c["ilen"] = json!(it.len());
+            let out: Vec<Value> = it.map(ej).collect();
+            c["out"] = json!(out);
+            c.as_object_mut().unwrap().remove("keys");
+        }
+        e => panic!("harness: unknown call {e}"),
+    }
+    c["len"] = json!(tabs[t].len());
+    c["slots"] = json!(tabs[t].slots());
+}
+
+fn worker<S: Status>(rx: Receiver<Value>, tx: Sender<Value>) {
+    let mut tabs: Vec<RawTable<Elem, S>> = (0..=MAXTAB).map(|_| RawTable::new()).collect();
+    while let Ok(mut c) = rx.recv() {
+        if let Err(msg) = catch(|| exec(&mut tabs, &mut c)) {
+            if msg.starts_with("harness:") {
+                eprintln!("{msg}");
+                std::process::exit(3);
+            }
+            c["fail"] = json!({ "panic": msg });
+        }
+        if tx.send(c).is_err() {
+            return;
+        }
+    }
+}
+
+/// the tables of one history, living in a worker thread
+struct Session {
+    tx: Sender<Value>,
+    rx: Receiver<Value>,
+    timeout: Duration,
+}
+
+impl Session {
+    fn new(status: &str, timeout: Duration) -> Self {
+        let (tx, wrx) = channel::<Value>();
+        let (wtx, rx) = channel::<Value>();
+        let b = std::thread::Builder::new().name("tables".into());
+        match status {
+            "u32" => b.spawn(move || worker::<u32>(wrx, wtx)),
+            "usize" => b.spawn(move || worker::<usize>(wrx, wtx)),
+            s => panic!("harness: unknown status type {s}"),
+        }
+        .expect("harness: spawn");
+        Session { tx, rx, timeout }
+    }
+    /// run one call under the watchdog; the returned event has `fail` if it did not complete
+    fn call(&mut self, c: Value) -> Value {
+        let mut pending = c.clone();
+        self.tx.send(c).expect("harness: worker gone");
+        match self.rx.recv_timeout(self.timeout) {
+            Ok(r) => r,
+            Err(RecvTimeoutError::Timeout) => {
+                pending["fail"] = json!("hang");
+                pending.as_object_mut().unwrap().remove("keys");
+                pending
+            }
+            Err(RecvTimeoutError::Disconnected) => panic!("harness: worker died"),
+        }
+    }
+}
+
+fn failed(e: &Value) -> bool {
+    e.get("fail").is_some()
+}
+fn is_hang(e: &Value) -> bool {
+    e.get("fail").and_then(|f| f.as_str()) == Some("hang")
+}
+
+struct Stats {
+    hangs: u64,
+    panics: u64,
+    grow: u64,
+    shrink: u64,
+    slots: [u64; MAXTAB + 1],
+}
+impl Stats {
+    fn new() -> Self {
+        Stats { hangs: 0, panics: 0, grow: 0, shrink: 0, slots: [0; MAXTAB + 1] }
+    }
+    /// record the (informational) capacity changes of the real table
+    fn see(&mut self, e: &Value) {
+        if failed(e) {
+            if is_hang(e) {
+                self.hangs += 1
+            } else {
+                self.panics += 1
+            }
+            return;
+        }
+        let t = if e["ev"] == "clone" { return } else { e["t"].as_u64().unwrap_or(0) as usize };
+        if let Some(s) = e.get("slots").and_then(|s| s.as_u64()) {
+            if e["ev"] != "new" && e["ev"] != "into_iter" {
+                if s > self.slots[t] && self.slots[t] > 0 {
+                    self.grow += 1
+                } else if s < self.slots[t] {
+                    self.shrink += 1
+                }
+            }
+            self.slots[t] = s;
+        }
+    }
+}
+
+fn audit_cmd(t: usize, keys: &[(u32, u64)]) -> Value {
+    let ks: Vec<Value> = keys.iter().map(|&(k, h)| json!([k, h.to_string()])).collect();
+    json!({"ev": "audit", "t": t, "keys": ks})
+}
+
+const MAX_HANGS: u64 = 3;
+
+// ---------------------------------------------------------------------------------------------
+// T: replay of model behaviours
+
+fn replay(args: &Args) {
+    let dir = args.get("out", "out/hashtbl");
+    let path = args.get("behaviours", "");
+    let status = args.get("status", "u32");
+    let timeout = Duration::from_millis(args.num("timeout-ms", 5000));
+    let mut out = TraceOut::new(&dir, &format!("hashtbl-replay-{status}"), args.num("chunk", 6000) as usize);
+    let f = std::fs::File::open(&path).unwrap_or_else(|e| panic!("harness: cannot open {path}: {e}"));
+    let mut st = Stats::new();
+    let (mut rows, mut nontrivial, mut skipped) = (0u64, 0u64, 0u64);
+    let interesting = ["reuse", "+tomb", "+wrap", "+grow", "+rehash", "+shrink", "+t2f", "trailtombs", "totomb", "+lastslot", "+alloc", "tombs"];
+    for line in std::io::BufReader::new(f).lines() {
+        let line = line.unwrap();
+        if line.trim().is_empty() {
+            continue;
+        }
+        if st.hangs >= MAX_HANGS {
+            skipped += 1;
+            continue;
+        }
+        let b: Value = serde_json::from_str(&line).expect("harness: behaviour is not JSON");
+        let hash: Vec<u64> = b["hash"].as_array().expect("harness: hash").iter().map(|x| x.as_u64().unwrap()).collect();
+        let keys: Vec<(u32, u64)> = hash.iter().enumerate().map(|(i, &h)| (i as u32 + 1, h)).collect();
+        let ntab = b["tabs"].as_u64().unwrap_or(1) as usize;
+        let ops = b["ops"].as_array().expect("harness: ops");
+        rows += 1;
+        if ops.iter().any(|o| interesting.iter().any(|s| o[7].as_str().unwrap_or("").contains(s))) {
+            nontrivial += 1;
+        }
+        out.begin_history();
+        out.emit(json!({"ev": "reset", "kind": "hashtbl", "tag": b["cfg"], "status": status, "tabs": ntab, "src": "model"}));
+        let mut s = Session::new(&status, timeout);
+        st.slots = [0; MAXTAB + 1];
+        let mut ok = true;
+        for t in 1..=ntab {
+            let e = s.call(json!({"ev": "new", "t": t, "cap": 0}));
+            st.see(&e);
+            ok &= !failed(&e);
+            out.emit(e);
+        }
+        for o in ops {
+            if !ok {
+                break;
+            }
+            let op = o[0].as_str().expect("harness: op");
+            let (t, dst, k, v, n) = (o[1].as_u64().unwrap(), o[2].as_u64().unwrap(), o[3].as_u64().unwrap(), o[4].as_u64().unwrap(), o[6].as_u64().unwrap());
+            let hs = || keys[k as usize - 1].1.to_string();
+            let c = match op {
+                "new" => json!({"ev": "new", "t": t, "cap": n}),
+                "insert" => json!({"ev": "insert", "t": t, "k": k, "v": v, "h": hs()}),
+                "find" | "get" | "remove" => json!({"ev": op, "t": t, "k": k, "h": hs()}),
+                "retain" => json!({"ev": "retain", "t": t, "p": o[5]}),
+                "drain" | "into_iter" | "iter" | "len" | "clear" => json!({"ev": op, "t": t}),
+                "reserve" => json!({"ev": "reserve", "t": t, "n": n}),
+                "clone" => json!({"ev": "clone", "t": t, "u": dst}),
+                x => panic!("harness: unknown model call {x}"),
+            };
+            let e = s.call(c);
+            st.see(&e);
+            ok &= !failed(&e);
+            out.emit(e);
+            if ok && !matches!(op, "find" | "get" | "iter" | "len") {
+                // what every table contains now
+                for a in 1..=ntab {
+                    let e = s.call(audit_cmd(a, &keys));
+                    st.see(&e);
+                    ok &= !failed(&e);
+                    out.emit(e);
+                    if !ok {
+                        break;
+                    }
+                }
+            }
+        }
+    }
+    out.finish();
+    write_summary(&dir, &format!("hashtbl-replay-{status}"), &out, json!({"rows": rows, "nontrivial": nontrivial,
+        "hangs": st.hangs, "panics": st.panics, "grow_observed": st.grow, "shrink_observed": st.shrink, "skipped_after_hangs": skipped}));
+}
+
+// ---------------------------------------------------------------------------------------------
+// V: random sequences
+
+const FAMILIES: [&str; 9] = ["collide", "above", "above32", "wrap", "ident", "topbit", "clusters", "random", "golden"];
+
+fn hashes(fam: &str, nkeys: usize, rng: &mut Rng) -> Vec<u64> {
+    let c = rng.below(64) as u64;
+    (0..nkeys as u64)
+        .map(|k| match fam {
+            "collide" => c,                                     // every key the same hash
+            "above" => c + ((k + 1) << (4 + rng.below(3))),     // equal below the mask of 16/32/64 slots
+            "above32" => c + ((k + 1) << 32),                   // equal as u32 status: only `eq` tells them apart
+            "wrap" => (14 + k % 3) % 16 + 16 * (k / 3 % 2) + 32 * (k % 2), // homes 14, 15, 0 (30, 31, 0 with 32 slots)
+            "ident" => k,                                       // key k lives in slot k
+            "topbit" => (k / 2) | ((k % 2) << 63),              // pairs differing in the bit dropped by from_hash
+            "clusters" => (k % 3) * 5 + c,
+            "golden" => (k + 1).wrapping_mul(0x9E3779B97F4A7C15),
+            _ => rng.next(),
+        })
+        .collect()
+}
+
+fn random(args: &Args) {
+    let dir = args.get("out", "out/hashtbl");
+    let seed = args.num("seed", 1);
+    let total = args.num("ops", 20000);
+    let hist_len = args.num("hist-len", 1200);
+    let maxkeys = args.num("keys", 20).min(20) as usize;
+    let timeout = Duration::from_millis(args.num("timeout-ms", 5000));
+    let mut out = TraceOut::new(&dir, "hashtbl-random", args.num("chunk", 5000) as usize);
+    let mut rng = Rng::new(seed ^ 0xC17);
+    let mut st = Stats::new();
+    let (mut done, mut histories, mut stamp) = (0u64, 0u64, 0u32);
+    let mut fams_used = std::collections::BTreeMap::<String, u64>::new();
+    while done < total && st.hangs < MAX_HANGS {
+        let fam = FAMILIES[(histories as usize + rng.below(2) * 4) % FAMILIES.len()];
+        let status = if histories % 2 == 0 { "u32" } else { "usize" };
+        let nkeys = 6 + rng.below(maxkeys - 5);
+        let hash = hashes(fam, nkeys, &mut rng);
+        let keys: Vec<(u32, u64)> = hash.iter().enumerate().map(|(i, &h)| (i as u32 + 1, h)).collect();
+        *fams_used.entry(fam.to_string()).or_insert(0) += 1;
+        histories += 1;
+        out.begin_history();
+        out.emit(json!({"ev": "reset", "kind": "hashtbl", "tag": fam, "status": status, "tabs": 2, "src": "random",
+            "keys": nkeys, "seed": seed}));
+        let mut s = Session::new(status, timeout);
+        st.slots = [0; MAXTAB + 1];
+        let mut ok = true;
+        macro_rules! call {
+            ($c:expr) => {{
+                let e = s.call($c);
+                st.see(&e);
+                ok &= !failed(&e);
+                out.emit(e);
+                done += 1;
+            }};
+        }
+        let cap0 = [0u64, 0, 3, 12, 13, 30][rng.below(6)];
+        call!(json!({"ev": "new", "t": 1, "cap": cap0}));
+        call!(json!({"ev": "new", "t": 2, "cap": 0}));
+        let mut cur = 1usize;
+        let mut other_live = false;
+        let mut n = 0u64;
+        let mut sweep = 0usize;
+        while ok && n < hist_len && done < total {
+            // a phase: fill / churn / purge (random or sweeping over the keys in order) / lookups
+            let mode = rng.below(7);
+            let plen = 8 + rng.below(5 * nkeys);
+            for _ in 0..plen {
+                if !ok {
+                    break;
+                }
+                n += 1;
+                let (pi, pr) = match mode {
+                    0 | 1 => (70, 10),
+                    2 => (40, 40),
+                    3 | 4 => (5, 75),
+                    5 => (80, 0),
+                    _ => (15, 15),
+                };
+                let x = rng.below(100);
+                let k = if mode == 4 || mode == 5 {
+                    sweep = (sweep + 1) % nkeys;
+                    sweep
+                } else {
+                    rng.below(nkeys)
+                };
+                let (key, h) = (keys[k].0, keys[k].1.to_string());
+                if x < pi {
+                    stamp = (stamp + 1) % 1_000_000;
+                    call!(json!({"ev": "insert", "t": cur, "k": key, "v": stamp, "h": h}));
+                } else if x < pi + pr {
+                    call!(json!({"ev": "remove", "t": cur, "k": key, "h": h}));
+                } else {
+                    match rng.below(8) {
+                        0..=2 => call!(json!({"ev": "find", "t": cur, "k": key, "h": h})),
+                        3..=5 => call!(json!({"ev": "get", "t": cur, "k": key, "h": h})),
+                        6 => call!(json!({"ev": "iter", "t": cur})),
+                        _ => call!(json!({"ev": "len", "t": cur})),
+                    }
+                }
+                if ok && rng.chance(1, 12) {
+                    call!(audit_cmd(cur, &keys));
+                    if ok && other_live {
+                        call!(audit_cmd(3 - cur, &keys));
+                    }
+                }
+            }
+            if !ok {
+                break;
+            }
+            // between phases: a bulk call, then what the tables contain
+            n += 1;
+            match rng.below(12) {
+                0 | 1 => {
+                    let dens = [0u64, 25, 50, 75, 100][rng.below(5)];
+                    let p: Vec<u32> = keys.iter().filter(|_| rng.chance(dens, 100)).map(|k| k.0).collect();
+                    call!(json!({"ev": "retain", "t": cur, "p": p}));
+                }
+                2 | 3 => call!(json!({"ev": "drain", "t": cur})),
+                4 => {
+                    let take = rng.below(6);
+                    call!(json!({"ev": "drain_partial", "t": cur, "take": take}));
+                }
+                5 => call!(json!({"ev": "clear", "t": cur})),
+                6 | 7 => {
+                    call!(json!({"ev": "clone", "t": cur, "u": 3 - cur}));
+                    other_live = true;
+                    if rng.chance(1, 2) {
+                        cur = 3 - cur;
+                    }
+                }
+                8 => call!(json!({"ev": "into_iter", "t": cur})),
+                9 => {
+                    let add = [0u64, 1, 5, 20, 40][rng.below(5)];
+                    call!(json!({"ev": "reserve", "t": cur, "n": add}));
+                }
+                10 => {
+                    if other_live {
+                        cur = 3 - cur;
+                    }
+                }
+                _ => {}
+            }
+            if ok {
+                call!(audit_cmd(cur, &keys));
+            }
+            if ok && other_live {
+                call!(audit_cmd(3 - cur, &keys));
+            }
+        }
+    }
+    out.finish();
+    write_summary(&dir, "hashtbl-random", &out, json!({"rows": 0, "nontrivial": st.grow + st.shrink,
+        "hangs": st.hangs, "panics": st.panics, "grow_observed": st.grow, "shrink_observed": st.shrink,
+        "families": fams_used, "calls": done}));
+}
+
+pub fn run(driver: &str, args: &Args) {
+    match driver {
+        "hashtbl-replay" => replay(args),
+        "hashtbl-random" => random(args),
+        d => {
+            eprintln!("unknown driver {d}");
+            std::process::exit(2);
+        }
+    }
+    // a call that hangs keeps its worker thread spinning: leave without joining
+    std::process::exit(0);
 }
